@@ -38,6 +38,14 @@ func checkC16(c *Ctx, r *Report) {
 			r.Fail("C16.a", "R11 STAGED", name+"/template-parses", c.pos(sc.TemplPos), "the embedded template does not parse: "+strings.Join(sc.Errs, "; "))
 			continue
 		}
+		// every field the template refers to is filled by the builder in this configuration: a field nobody assigns
+		// renders as its zero value ("" / 0 / false) — e.g. NTERMINALS = 0 or an empty switch body
+		if sc.Eval != nil && sc.Used != nil {
+			missing := sortedKeys(sc.Unfilled)
+			r.Check(len(missing) == 0, "C16.a", "R11 STAGED", name+"/every-template-field-is-filled", c.pos(sc.TemplPos),
+				fmt.Sprintf("all %d fields the template consults in this configuration are assigned by the builder before the template is executed", len(sc.Used)),
+				fmt.Sprintf("the template consults builder field(s) %v that nothing assigns in this configuration: they render as zero values", missing))
+		}
 		for _, sk := range sc.Skels {
 			nSk++
 			construct := fmt.Sprintf("%s/k=%d/actions=%d", name, sk.K, sk.ActSet)
